@@ -136,7 +136,62 @@ Definition mirror_check (c : mirror_case) : bool :=
      else true)
   end.
 
-(* one case file for the property: reader cases and mirror cases *)
-Inductive c05_case := CR (c : results_case) | CM (c : mirror_case).
+(* ---------- the client side of one results stream: the header line ----------
+   Above, a stream hands the mirror the remote reader's bytes directly.  On the wire they follow one
+   line, "Streaming results for work unit X\n", and the connection is a byte stream: it delivers
+   header and output as a sequence of reads of ANY sizes — the header may be split at any position
+   and its last part may come in one read together with the first output bytes (a link that held the
+   traffic back, a retransmission, a peer that writes both at once).  monitorRemoteStdout reads
+   the line through the bufio.Reader it read the greeting with (utils.ReadStringContext(reader)),
+   then io.Copy(stdout, reader): what the reader has buffered behind the line is copied first,
+   then the rest of the connection.  [client_mirror] is that; [client_mirror_raw] copies from
+   the connection instead (io.Copy(stdout, conn)) and loses the buffered bytes. *)
+Fixpoint split_nl (c : bytes) : option (bytes * bytes) :=
+  match c with
+  | [] => None
+  | b :: r => if b =? 10 then Some ([], r)
+              else match split_nl r with Some (a, rest) => Some (b :: a, rest) | None => None end
+  end.
+
+(* ReadString('\n') over the reads: the line (with its newline), what is left in the reader's
+   buffer, the reads not yet made *)
+Fixpoint read_line (acc : bytes) (reads : list bytes) : option (bytes * bytes * list bytes) :=
+  match reads with
+  | [] => None
+  | c :: r =>
+    match split_nl c with
+    | Some (a, rest) => Some (acc ++ a ++ [10], rest, r)
+    | None => read_line (acc ++ c) r
+    end
+  end.
+
+Definition client_mirror (reads : list bytes) : option (bytes * bytes) :=
+  match read_line [] reads with
+  | Some (line, buffered, r) => Some (line, buffered ++ concat r)
+  | None => None
+  end.
+
+Definition client_mirror_raw (reads : list bytes) : option (bytes * bytes) :=
+  match read_line [] reads with
+  | Some (line, _, r) => Some (line, concat r)
+  | None => None
+  end.
+
+Definition no_nl (l : bytes) : bool := forallb (fun b => negb (b =? 10)) l.
+
+(* a header case: the writes of a scripted remote control service on one results stream (any
+   chunking of header and output) and what the real mirror appended to the local stdout *)
+Inductive header_case := HCase (reads : list bytes) (appended : bytes).
+Definition header_check (c : header_case) : bool :=
+  match c with
+  | HCase reads appended =>
+    match client_mirror reads with
+    | Some (_, body) => beq_bytes body appended
+    | None => false
+    end
+  end.
+
+(* one case file for the property: reader cases, mirror cases, header cases *)
+Inductive c05_case := CR (c : results_case) | CM (c : mirror_case) | CH (c : header_case).
 Definition c05_check (c : c05_case) : bool :=
-  match c with CR r => results_check r | CM m => mirror_check m end.
+  match c with CR r => results_check r | CM m => mirror_check m | CH h => header_check h end.
